@@ -362,6 +362,54 @@ def rule_merge(rep, repo):
                   instance=cfg, observed="%d of %d grid points short of %s "
                   "bits, by at most %s" % (short, pts, what, worst))
       rep.extra.setdefault("merge_paths", {})[cfg] = npaths
+  # the graph keeps ONE edge per pair of nodes: a node that feeds an Add
+  # twice (Add()([x, x]), or two branches collapsed onto one producer)
+  # reaches the factory as a one-entry list, and the type must hold x + x
+  unit = "%s::MergeFactory.make_quantizer" % mg.relpath
+  for k1 in ("fixed_s", "fixed_u"):
+    cfg = "MergeFactory.make_quantizer([%s], 'Add') (one edge, used twice)" \
+        % k1
+
+    def run1(fork, k1=k1):
+      pe = PE(repo)
+      pe.fork = fork
+      q1 = ta.make_operand(pe, repo, k1, "1", by_fraction=True)
+      q1.attrs["name"] = "quantized_bits"
+      fac = pe.call(pe.lookup_global("MergeFactory", mg), [], {})
+      m = pe.call(pe.getattr(fac, "make_quantizer"),
+                  [[(q1, Mock("edge", {}))], "Add"], {})
+      return pe, q1, m
+    recs = {"int": [], "frac": []}
+    for path, res in explore(run1):
+      if isinstance(res, Exception):
+        rep.fail("R5", unit, "merge-raises", "%s raises %s on a path" %
+                 (cfg, res), instance=cfg)
+        continue
+      pe, q1, m = res
+      lits = ta.literals(path, fw)
+      o = m.attrs.get("output")
+      bits, ib = ta.field(o, "bits", fw), ta.field(o, "int_bits", fw)
+      sg = int(bool(o.attrs.get("is_signed")))
+      ni1, nf1 = needs(q1, pe, fw)
+      recs["int"].append((lits, ib, [ni1 + 1]))
+      recs["frac"].append((lits, bits - sg - ib, [nf1]))
+    for what in ("int", "frac"):
+      first = None
+      for lits, have, needs_ in recs[what]:
+        for need in needs_:
+          verdict, wit = ta.prove_ge(have, need, DOM, lits)
+          if verdict == "refuted" and first is None:
+            first = (lits, have, need, wit)
+      short, worst, pts = _deficit_profile(recs[what])
+      rep.check(first is None and bool(recs[what]), "R5", unit,
+                "merge-insufficient-%s-bits" % what,
+                "%s: the output has %s bits = %s where x + x needs %s; "
+                "counterexample %s" % (
+                    (cfg, what, show(first[1]), show(first[2]),
+                     ta.show_env(first[3])) if first else
+                    (cfg, what, "", "", "")), instance=cfg,
+                observed="%d of %d grid points short of %s bits, by at "
+                "most %s" % (short, pts, what, worst))
 
 
 def rule_siblings(rep, repo):
